@@ -72,6 +72,19 @@ class Concrete(object):
             return v
         return self.cname[n] + ("|" + v if v else "")
 
+    def deep_write(self, P, n, v):
+        """a write THROUGH the child named n (it is created by the traversal when absent): its first leaf gets v"""
+        name = self.cname[n]
+        px = getattr(P, name.lower())
+        if self.kind == "grp" and n != "Z":
+            setattr(px, name.lower() + "_1", v)
+        elif self.kind == "seg" and n == "B":
+            px.cx_1 = v
+        elif self.kind == "seg" and n == "C":
+            px.xpn_1 = v
+        else:
+            px.value = v
+
     def value(self, n, v, asdt):
         """what is assigned: the text or - where the child is a field of a base datatype - an object of that datatype"""
         if asdt and v and (self.kind == "zseg" or (self.kind == "seg" and n == "A")):
@@ -259,6 +272,8 @@ class World(object):
             P.children[i] = c.text(name, op["v"])
         elif o == "SetAtObj":
             P.children[op["i"] - 1] = self.objs[op["c"]]
+        elif o == "SetDeep":
+            c.deep_write(P, op["n"], op["v"])
         elif o == "AddNew":
             c.add_new(P, op["n"])
         elif o == "AddObj":
@@ -471,6 +486,10 @@ def paths_from_graph(nodes, edges, rnd, extra_paths=1):
                 path[v] = path[u] + [lab]
                 q.append(v)
     alt = collections.defaultdict(list)
+    deep = {}
+    for (u, lab, v) in edges:
+        if u != v and '"SetDeep"' in lab and u in path and v not in deep and path[u] + [lab] != path.get(v):
+            deep[v] = path[u] + [lab]
     for _ in range(extra_paths * 2000):
         u = init
         labs = []
@@ -481,6 +500,8 @@ def paths_from_graph(nodes, edges, rnd, extra_paths=1):
             labs.append(lab)
             if len(alt[u]) < extra_paths and labs != path.get(u):
                 alt[u].append(list(labs))
+    for v, pl in deep.items():
+        alt[v].insert(0, pl)
     return init, path, alt
 
 
@@ -494,6 +515,7 @@ def alphabet(names, objs, vals, maxkids):
             for v in vals:
                 ops.append({"op": "SetName", "p": p, "n": n, "v": v})
             ops.append({"op": "SetName", "p": p, "n": n, "v": vals[0], "asdt": True})
+            ops.append({"op": "SetDeep", "p": p, "n": n, "v": vals[-1]})
             for i in range(0, maxkids + 1):
                 ops.append({"op": "DelIdx", "p": p, "n": n, "i": i})
                 ops.append({"op": "SetIdx", "p": p, "n": n, "i": i, "v": vals[-1]})
@@ -582,7 +604,7 @@ def explore(ctx, focus, kinds, versions, stricts, size):
                 for op in ops + rops:
                     if not applicable(op, st):
                         continue
-                    if pi > 0 and rnd.random() > 0.25:
+                    if pi > 0 and rnd.random() > 0.25 and not (pl and '"SetDeep"' in pl[-1]):
                         continue
                     # the prefix is recorded too, once (first path only, first op only)
                     jobs.append((pre_ops, op, len(pre_ops)))
